@@ -80,6 +80,11 @@ PROPS = {
                               'the native probe uses a real pipe: what the kernel delivers on a pipe is what was written'],
                 assumptions=['no deductive verifier in this sandbox reaches send (closure capturing &mut, not a retain) or next (nix read, FromPrimitive derive): no Verus claim is made; Kani is the bounded model checker of the same tool family',
                              'batches of arbitrary length are covered only by fixed lengths (0, 1, 2) in Kani and by random batches natively: bounded, never counted as proved; the one-record layout is complete over all key codes']),
+    'C04': dict(units=['mapper'], level='proof', trusted_base=TB_MAPPER + [AS_ANYMOD], assumptions=AS_MAPPER + [
+                    'claimed, as the property is quantified, for layouts without absorbing lists (Mapper::step carries the contract for every state in which nothing is absorbed)',
+                    '"physically held" is read through the history fact that every key the mapper considers pressed is physically held; "the output of a held modifier-remapping" is read as: an output key of a layout mapping whose output does not end in a non-modifier key and whose trigger keys are all physically held',
+                    'the instant is every position of the step\'s event list at which the final output key of the fired mapping is pressed (there is exactly one: outputs have no duplicates)'],
+                witness='mapper', rests_on=['C19', 'C03'], extras=['anymod_bounded']),
     'C05': dict(units=['mapper'], level='proof', trusted_base=TB_MAPPER + [AS_ANYMOD], assumptions=AS_MAPPER + [
                     '"physically pressed" is read through the mapper: the theorems are stated per step over what the mapper considers pressed (a foreign key is never absorbed, so it is considered pressed from its press to its release; after a release-all the mapper has forgotten keys that are still physically down, as the statement of C12 intends)',
                     '"with an empty layout the output stream equals the input stream" is proved for every event that is not ill-formed (a press of a key that is down / a release of a key that is up produces no output, C09)',
